@@ -13,8 +13,8 @@ import re
 
 import vplib as V
 
-PROPS = ["C01", "C05", "C08", "C09", "C10", "C12", "C14", "C15"]
-FIRST_RUN = {"C01": 0, "C05": 1000, "C08": 2000, "C09": 3000, "C10": 4000, "C12": 5000, "C14": 6000, "C15": 7000}
+PROPS = ["C01", "C02", "C05", "C08", "C09", "C10", "C12", "C14", "C15"]
+FIRST_RUN = {"C02": 8000, "C01": 0, "C05": 1000, "C08": 2000, "C09": 3000, "C10": 4000, "C12": 5000, "C14": 6000, "C15": 7000}
 
 
 def env_for(pid):
@@ -141,6 +141,9 @@ def _set(e, path, val):
 
 
 SELFTESTS = {
+    "C02": (lambda e: e["op"] == "recv" and e["res"] == "data" and e["tag"] == "data" and e["orig"][0] > 0,
+            lambda e: _set(e, ["orig"], [e["orig"][0], e["orig"][1] + 7]), "opened-only-if-sealed-for-this-connection",
+            "a payload datagram sealed by another instance of the peer opened"),
     "C12": (lambda e: e["op"] == "recv" and e["res"] == "nodeinfo" and len(e["post"]["claims"]) > 0,
             lambda e: e["post"]["claims"].pop(), "recv-nodeinfo-claims", "a claim of the announcement missing from the table"),
     "C15": (lambda e: e["op"] == "hk" and len(e["post"]["peers"]) > 0,
